@@ -1,7 +1,8 @@
 (* Model/DispatchC14.v — entry point of the executable model of C14 (Model/Pickle.v).
    Encodings.  route: 0..5 pickle protocol, 6 copy.copy, 7 copy.deepcopy, 8 = no copy (observe the original).
    tzspec: [0] None | 1 :: key :: zone window (init :: n :: t1 :: o1 ...) Timezone | 2 :: offset :: len :: name chars FixedTimezone(offset, name)
-           | 3 :: offset  FixedTimezone(offset) built by the model constructor (default name).
+           | 3 :: offset  FixedTimezone(offset) built by the model constructor (default name)
+           | 4 :: offset  datetime.timezone(timedelta(seconds=offset)) | 5 :: key :: zone window  zoneinfo.ZoneInfo(key)  (standard-library tzinfos).
    endpoint: 0 :: ordinal (Date) | 1 :: W :: fold :: tzspec (DateTime).
    Results: 0 :: observation, [1; exn code], [9] bad call. *)
 From Coq Require Import ZArith List Bool String.
@@ -17,6 +18,8 @@ Definition parse_tz (l : list Z) : option (tzv * zone * list Z) :=
   | 1 :: k :: r => match parse_zone r with Some (z, rest) => Some (TzNamed k, z, rest) | None => None end
   | 2 :: o :: n :: r => Some (TzFixed o (firstn (Z.to_nat n) r), fixed_zone o, skipn (Z.to_nat n) r)
   | 3 :: o :: r => match fixed_new [AInt o] [] with Ok t => Some (t, fixed_zone o, r) | Raise _ => None end
+  | 4 :: o :: r => Some (TzForeign (StdOffset o), fixed_zone o, r)
+  | 5 :: k :: r => match parse_zone r with Some (z, rest) => Some (TzForeign (StdZone k), z, rest) | None => None end
   | _ => None
   end.
 
@@ -25,7 +28,7 @@ Definition parse_ep (l : list Z) : option (ep * option (Z * zone) * list Z) :=
   | 0 :: n :: r => Some (EpDate n, None, r)
   | 1 :: W :: f :: r =>
       match parse_tz r with
-      | Some (t, z, rest) => Some (EpDt (mkdt W (zb f) t), match t with TzNamed k => Some (k, z) | _ => None end, rest)
+      | Some (t, z, rest) => Some (EpDt (mkdt W (zb f) t), match t with TzNamed k | TzForeign (StdZone k) => Some (k, z) | _ => None end, rest)
       | None => None
       end
   | _ => None
